@@ -200,3 +200,109 @@ def first_diff(a, b):
 def replay_run(obj, extra_args=()):
     """re-run a replay blob on the real tool"""
     return tool.run(bytes.fromhex(obj["capture_hex"]), obj.get("keylog"), list(obj.get("argv", [])) + list(extra_args))
+
+
+# ----------------------------------------------------------------------------- mixed TLS + QUIC captures
+class Mixed:
+    """N TLS and M QUIC connections plus unrelated traffic, interleaved packet by packet (order-preserving merge).
+    Every connection keeps its own packet order; timestamps are assigned after merging, strictly increasing.
+    `pattern`: 'random' | 'same-hosts' (one client host, one server host, different client ports) |
+               'same-cport' (the same client ip:port towards different servers)."""
+
+    def __init__(self, rng, tls_combos, n_quic=0, pattern="random", noise=True, v6=None, quic_features=None,
+                 tls_app=None):
+        import gen_quic
+        self.rng = rng
+        self.tls, self.quic = [], []
+        base = random_endpoints(rng, 0, v6=v6)
+        per = []        # per connection: list of frames
+        self.kinds = []
+        for i, (code, version, etm) in enumerate(tls_combos):
+            shape = random_shape(rng, version)
+            shape["etm"] = etm
+            sc = gen_tls.Script(version, code, tls_app[i] if tls_app else random_app(rng, 3, 7), rng, **shape)
+            ep = random_endpoints(rng, i, v6=(len(base["cip"]) == 16) if pattern != "random" else v6)
+            if pattern == "same-hosts":
+                ep.update(cip=base["cip"], sip=base["sip"], cmac=base["cmac"], smac=base["smac"], cport=base["cport"] + 1 + i)
+            elif pattern == "same-cport":
+                ep.update(cip=base["cip"], cmac=base["cmac"], cport=base["cport"])
+            conn = gen_tls.TcpConn(**ep)
+            cut = random_cut(rng)
+            flights, truth = sc.render()
+            for d, data in flights:
+                conn.send(d, data, rng, cut)
+            self.tls.append({"script": sc, "conn": conn, "truth": truth, "keylog": sc.keylog_lines()})
+            per.append([f for _, f, *_ in conn.pkts])
+            self.kinds.append(("tls", len(self.tls) - 1))
+        for j in range(n_quic):
+            feats = dict(quic_features[j]) if quic_features else {}
+            if pattern != "random":
+                feats.setdefault("v6", len(base["cip"]) == 16)
+            c, f = gen_quic.random_connection(rng, 100 + j, features=feats)
+            if pattern == "same-hosts":
+                pass     # QUIC endpoints are generated inside random_connection; kept distinct
+            self.quic.append({"conn": c, "features": f, "keylog": c.keylog_lines()})
+            per.append([fr for _, _, fr in c.items])
+            self.kinds.append(("quic", len(self.quic) - 1))
+        if noise:
+            nz = []
+            for k in range(rng.randrange(2, 8)):
+                if rng.random() < 0.5:      # plain TCP on unwatched ports / non-IP
+                    nz.append(wire.tcp_frame(gen_tls.CMAC, gen_tls.SMAC, bytes([10, 7, 7, 7]), bytes([10, 7, 7, 8]),
+                                             40000 + k, 8081, 100 + k, 1, 0x18, rng.randbytes(rng.randrange(1, 100))))
+                else:                       # UDP without the QUIC fixed bit (DNS-like)
+                    d = bytearray(rng.randbytes(rng.randrange(12, 80)))
+                    d[0] &= 0xBF
+                    nz.append(wire.udp_frame(gen_tls.CMAC, gen_tls.SMAC, bytes([10, 7, 7, 7]), bytes([10, 7, 7, 9]),
+                                             40000 + k, 53, bytes(d)))
+            nz.append(b"\xff" * 12 + b"\x08\x06" + rng.randbytes(28))     # ARP-like non-IP frame
+            per.append(nz)
+            self.kinds.append(("noise", 0))
+        idx = [0] * len(per)
+        self.items, self.owners = [], []
+        t = 1_700_000_000_000_000 + rng.randrange(0, 10 ** 6)
+        while any(idx[i] < len(per[i]) for i in range(len(per))):
+            live = [i for i in range(len(per)) if idx[i] < len(per[i])]
+            i = rng.choice(live)
+            t += rng.randrange(1, 30_000)
+            self.items.append(("pkt", t, per[i][idx[i]]))
+            self.owners.append(i)
+            idx[i] += 1
+        # QUIC ground truth follows the new timestamps
+        for j, q in enumerate(self.quic):
+            me = [k for k, kd in enumerate(self.kinds) if kd == ("quic", j)][0]
+            new_ts = [it[1] for it, o in zip(self.items, self.owners) if o == me]
+            old_ts = [it[1] for it in q["conn"].items]
+            m = dict(zip(old_ts, new_ts))
+            q["expect"] = [(m[t0], d, b) for t0, d, b in q["conn"].expect]
+        kl = [l for c in self.tls + self.quic for l in c["keylog"]]
+        rng.shuffle(kl)
+        self.keylog = kl
+
+    def keylog_text(self):
+        return "\n".join(self.keylog) + "\n"
+
+    def capture(self, only=None, **kw):
+        """whole capture, or only the packets of connection index `only` (same timestamps)"""
+        items = self.items if only is None else [it for it, o in zip(self.items, self.owners) if o == only]
+        return wire.pcapng(items, **kw)
+
+    def n_conns(self):
+        return len(self.tls) + len(self.quic)
+
+    def describe(self):
+        return {"tls": [f"{c['script'].v}/{spec_suites.R[c['script'].code]}" for c in self.tls],
+                "quic": [f"{q['features']['suite']:04X}" for q in self.quic], "packets": len(self.items)}
+
+
+def flow_packets(pkts, cip, cport, sip, proto):
+    """the strictly decoded output packets belonging to one connection, in file order, as comparable tuples"""
+    out = []
+    for us, p in pkts:
+        if p["proto"] != proto:
+            continue
+        ends = {(p["src"], p["sport"]), (p["dst"], p["dport"])}
+        if (cip, cport) in ends and sip in (p["src"], p["dst"]):
+            out.append((us, p["smac"], p["dmac"], p["src"], p["sport"], p["dst"], p["dport"], p.get("flags"), p.get("seq"),
+                        p.get("ack"), bytes(p["payload"])))
+    return out
